@@ -294,3 +294,18 @@ def c20(ctx, t0):
         'a clean ASan/UBSan run over the generated server behaviours is not a proof of memory safety (red-zone tools miss intra-object and far overflows)',
         'bounded time is decided logically (every socket read/write preceded by a finite-timeout select that reported readiness; select count bounded by bytes transferred); timing cases assert only when the server record is clearly on one side of the timeout',
         'descriptor numbers >= FD_SETSIZE are outside the property quantifier'], floors, t0)
+
+
+@plan('C04')
+def c04(ctx, t0):
+    ctx.build_agent()
+    hx = ctx.build_hx()
+    res = []
+    if want(ctx, 'frontends'):
+        res.append(ctx.run_child('frontends', [hx, 'c04'], T(ctx, 900, 5400)))
+    floors = {'verdicts:sasl': (counters(res, 'verdicts:sasl'), 200), 'verdicts:basic': (counters(res, 'verdicts:basic'), 200), 'verdicts:api': (counters(res, 'verdicts:api'), 150),
+              'verdicts:ldap': (counters(res, 'verdicts:ldap'), 200), 'verdicts:cli': (counters(res, 'verdicts:cli'), 30), 'store_accepts': (counters(res, 'store_accepts'), 100),
+              'concurrent_requests': (counters(res, 'concurrent_requests'), 500), 'internal_error_probes': (counters(res, 'internal_error_probes'), 20)}
+    return finish(ctx, 'exploration', res, COMMON_ASSUME + [
+        'the reference verdict is store.Dir.Authenticate on the same directory, taken before and after each frontend call while the store is quiescent; the library itself is judged by C01/C02',
+        'transport limits honoured by the generator: non-empty fields; SASL fields <= 256 bytes (longer ones must be denied); JSON strings are Unicode scalar values; basic-auth user names without ":"; CLI arguments NUL-free and not starting with "-"'], floors, t0)
